@@ -20,7 +20,11 @@ RULE = ("temperature: all 16 ordered pairs of {K, Cel, degF, degR} x every admis
         "prefix combinations, level addition/subtraction for every bel-type unit (same or mixed prefix), the documented "
         "examples verbatim, histories in which 2-3 level operands are built once and reused across 3-7 additions, "
         "subtractions, reads and conversions to the linear counterpart (every result expected from the operands as "
-        "constructed), plus a model-only stream of pairs mixing temperature/logarithmic units with arbitrary units "
+        "constructed), 70% of the judged conversions repeated with an absolute or relative uncertainty attached (same value "
+        "required), at the end rounds that open and close unit environments whose custom units name the built-in conversion "
+        "classes (conversions inside, UNIT_TYPES compared before/after, samples of all judged streams and level sums re-run "
+        "afterwards; the tables are re-extracted at the end of the run and must equal the generated ones), "
+        "plus a model-only stream of pairs mixing temperature/logarithmic units with arbitrary units "
         "(accept/refuse and value compared with the model, not judged). non-trivial = different units or prefixes, or an "
         "addition/subtraction; distinct = (u, v, value) text")
 ASSUMPTIONS = [
@@ -319,6 +323,15 @@ def run_conv_cases(ctx, cat, cases):
                               "%s -> %s of %r: to() leaves %r, the documented definition gives %r" %
                               (c["eu"], c["ev"], c["x"], imp["after_val"], want), replay)
                 continue
+        # the value must not depend on whether the operand carries an uncertainty
+        if U.in_float_range(imp["value"]) and ctx.rng.random() < 0.7:
+            ctx.count("variant.with-uncertainty")
+            got = C4.uncertain_variant(cat, c, ctx.rng)
+            if got == "err" or not U.close(got[0], imp["value"], 1e-12, atol) or not U.close(got[1], imp["after_val"], 1e-12, atol):
+                ctx.violation("%s:value-depends-on-uncertainty:%s->%s" % (c["stream"], c["iu"][0][1], c["iv"][0][1]),
+                              "%s -> %s of %r: with an uncertainty attached value()/to() give %r, without it %r" %
+                              (c["eu"], c["ev"], c["x"], got, (imp["value"], imp["after_val"])), dict(replay, with_uncertainty=True))
+                continue
         # reverse conversion returns the original value
         back = roundtrip(c)
         if back == "err":
@@ -540,6 +553,66 @@ def level_history_stream(ctx, cat, count):
                       {"stream": "level-history", "unit": s, "operands": operands, "ops": ops_small, "linear": lin_expr})
 
 
+# ------------------------------------------------------------------ histories across unit environments
+def env_class_history(ctx, cat, cases, rounds):
+    """temperature / logarithmic conversions AFTER unit environments whose custom units use the built-in
+    conversion classes were opened and closed; UNIT_TYPES must be what it was"""
+    from scinumtools.units import Quantity, UnitEnvironment
+    settings, ut = U.units_mod()
+    rng = ctx.rng
+    order0 = [c.__name__ for c in settings.UNIT_TYPES]
+    judged = [c for c in cases if c["spec"] is not None]
+
+    def definitions():
+        pool = {
+            "degX": {"magnitude": 1, "dimensions": [0, 0, 0, 1, 0, 0, 0, 0], "definition": ut.TemperatureUnitType},
+            "BX": {"magnitude": 1, "dimensions": [2, 1, -3, 0, 0, 0, 0, 0], "definition": ut.LogarithmicUnitType, "prefixes": ["d"]},
+            "NX": {"magnitude": 1, "dimensions": [0, 0, 0, 0, 0, 0, 0, 0], "definition": ut.LogarithmicUnitType},
+            "ulen": {"magnitude": 3.0857e16, "dimensions": [1, 0, 0, 0, 0, 0, 0, 0]},
+            "ustd": {"magnitude": 2.0, "dimensions": [0, 1, 0, 0, 0, 0, 0, 0], "definition": ut.StandardUnitType},
+            "utxt": {"magnitude": 60.0, "dimensions": [0, 0, 1, 0, 0, 0, 0, 0], "definition": "60*s"},
+        }
+        ks = rng.sample(list(pool), rng.randint(1, 3))
+        return {k: dict(pool[k]) for k in ks}
+
+    for r in range(rounds):
+        defs = definitions() if r else {k: v for k, v in definitions().items()} | {
+            "degX": {"magnitude": 1, "dimensions": [0, 0, 0, 1, 0, 0, 0, 0], "definition": ut.TemperatureUnitType},
+            "BX": {"magnitude": 1, "dimensions": [2, 1, -3, 0, 0, 0, 0, 0], "definition": ut.LogarithmicUnitType, "prefixes": ["d"]}}
+        names = sorted(defs)
+        ctx.count("stream.env-rounds")
+        try:
+            env = UnitEnvironment(defs)
+        except Exception:
+            ctx.count("skipped.environment-not-accepted")
+            continue
+        try:
+            inside = [dict(c, stream="in-env:" + c["stream"]) for c in rng.sample(judged, min(20, len(judged)))]
+            run_conv_cases(ctx, cat, inside)
+        finally:
+            env.close()
+        order = [c.__name__ for c in settings.UNIT_TYPES]
+        ctx.case("env-order|%d|%s" % (r, names), True, None)
+        if order != order0:
+            ctx.violation("unit-types:changed-by-environment",
+                          "UNIT_TYPES was %s; after opening and closing a unit environment defining %s it is %s" % (order0, names, order),
+                          {"stream": "env-history", "environment": names, "before": order0, "after": order})
+        after = [dict(c, stream="after-env:" + c["stream"]) for c in rng.sample(judged, min(60, len(judged)))]
+        run_conv_cases(ctx, cat, after)
+        level_stream(ctx, cat, 24)
+
+
+def tables_still_as_generated(ctx):
+    """the facts proved about the regenerated tables are about the tables at the START of the run: they must
+    still be the tables at its end"""
+    now = U.render_c05_tables(U.extract_c05_tables())
+    path = U.GEN / "C05Tables.lean"
+    if path.read_text() != now:
+        ctx.violation("tables:changed-during-run",
+                      "UNIT_TYPES / conversion tables at the end of the run differ from the ones the theorems were checked for",
+                      {"stream": "tables", "unit_types_now": U.extract_c05_tables()["unitTypes"]})
+
+
 def doc_examples(ctx):
     from scinumtools.units import Quantity, Unit
 
@@ -573,11 +646,14 @@ def doc_examples(ctx):
 
 def correspond(ctx: Ctx, scale=1):
     cat = U.Catalog()
-    cases = temp_cases(ctx, cat) + log_cases(ctx, cat) + mixed_cases(ctx, cat, (3000 if ctx.tier == "thorough" else 400) * scale)
+    judged = temp_cases(ctx, cat) + log_cases(ctx, cat)
+    cases = judged + mixed_cases(ctx, cat, (3000 if ctx.tier == "thorough" else 400) * scale)
     run_conv_cases(ctx, cat, cases)
     level_stream(ctx, cat, (2000 if ctx.tier == "thorough" else 300) * scale)
     level_history_stream(ctx, cat, (1500 if ctx.tier == "thorough" else 200) * scale)
     doc_examples(ctx)
+    env_class_history(ctx, cat, judged, (25 if ctx.tier == "thorough" else 5) * scale)   # last: it changes global tables
+    tables_still_as_generated(ctx)
     ctx.extra["exhaustive_part"] = "all 16 temperature pairs; all documented log/linear pairs both directions; every unit to itself with all prefix combinations" + \
         ("; all admissible prefixes" if ctx.tier == "thorough" else "")
 
